@@ -34,6 +34,10 @@ chk("C07", "exploration",
     "exhaustive enumeration of the request-building product and of all custom-body write programs up to a length bound; independent parser (httparse) as oracle", "E2",
     "Every combination of method, URL, params, header set-up, auth helper and body kind, and EVERY write/flush program up to length 4/5 over a 9-step alphabet for user-defined bodies (chunked and known-length, under short-write transports), is sent through the real client; the recorded bytes must parse back as exactly one request with the same parts and consistent framing.",
     "Trusted: httparse + the strict chunked decoder in the harness; contradictory caller-supplied framing headers are outside the space.")
+chk("C08", "exploration",
+    "exhaustive enumeration of the URL x proxy configuration matrix on the real client: scripted transport for plain-http routes, local TLS lab for every route involving TLS", "E2+E5",
+    "All 5184 cells scheme x host kind x port kind x path x query x fragment x userinfo x proxy kind x proxy URL form are sent; observed: the address asked for (factory / resolver-table log / accepting listener), the request as the peer reads it in clear (also inside CONNECT tunnels and behind an https proxy), the CONNECT line; compared with an independent construction of connection target, request-target form and Host.",
+    "Trusted: harness construction of the expected target/Host strings; native-tls acceptors; certificates are not verified here (C14).")
 chk("C09", "model_checking",
     "explicit-state BFS over redirect worlds (state = next URL x redirects taken) executing the real send() on every transition; RFC 3986 reference resolver", "E3",
     "Breadth-first search with state merging over scripted redirect worlds: every reachable (URL, count) state is expanded with every response of a 98-response menu; every transition is a complete run of the real client whose requests, targets, error kind and final URL are compared with an independent RFC 3986 section 5 implementation.",
@@ -96,13 +100,13 @@ m = {
         "guard": "cargo feature verif-hooks (attohttpc)",
         "enable": "the harness crate /verif/harness depends on attohttpc by path (/repo) with features = [\"verif-hooks\", ...]; ./check rebuilds it from /repo's working tree on every run",
         "baseline_off_cmd": "cd /repo && cargo nextest run --workspace --no-fail-fast --offline",
-        "source_commits": ["5e13d00"],
+        "source_commits": ["5e13d00", "8a1a9bd"],
         "add_only": True,
     },
     "engines": [
         {"name": "E1", "path": "/verif/harness/src/e1.rs", "serves_properties": ["C01", "C02", "C19"], "kind_free_text": "explicit-state search over (scripted transport x real Response), states re-reached by replay, keyed by Debug of the reader stack"},
-        {"name": "E2", "path": "/verif/harness/src/", "serves_properties": ["C03", "C04", "C05", "C06", "C07", "C11", "C12", "C15", "C18"], "kind_free_text": "bounded exhaustive input/configuration enumerators over the real code through the scripted transport (C05 in worker subprocesses)"},
-        {"name": "E5", "path": "/verif/harness/src/tlslab.rs", "serves_properties": ["C12", "C14"], "kind_free_text": "local TLS lab: real loopback listeners (TLS origin, http/https proxy terminating the inner TLS), committed test PKI, second build against rustls"},
+        {"name": "E2", "path": "/verif/harness/src/", "serves_properties": ["C03", "C04", "C05", "C06", "C07", "C08", "C11", "C12", "C15", "C18"], "kind_free_text": "bounded exhaustive input/configuration enumerators over the real code through the scripted transport (C05 in worker subprocesses)"},
+        {"name": "E5", "path": "/verif/harness/src/tlslab.rs", "serves_properties": ["C08", "C12", "C14"], "kind_free_text": "local TLS lab: real loopback listeners (TLS origin, http/https proxy terminating the inner TLS), committed test PKI, second build against rustls"},
         {"name": "E3", "path": "/verif/harness/src/redir.rs", "serves_properties": ["C09", "C10", "C16"], "kind_free_text": "BFS over scripted redirect worlds with a reference model"},
     ],
     "checks": checks,
